@@ -332,6 +332,16 @@ def while_to_for(modules, known, rep):
 
 
 # ---------------------------------------------------------------------------------------------- N14 unroll constant loops
+class _beta(ast.NodeTransformer):
+    """`(lambda: c)()` is c"""
+    def visit_Call(self, node):
+        self.generic_visit(node)
+        if isinstance(node.func, ast.Lambda) and not node.args and not node.keywords and not (node.func.args.args or node.func.args.vararg or node.func.args.kwarg
+                                                                                            or node.func.args.kwonlyargs) and isinstance(node.func.body, ast.Constant):
+            return ast.copy_location(node.func.body, node)
+        return node
+
+
 def _read_before_store(stmts, names) -> bool:
     """some name of `names` is read in `stmts` before anything there assigns it (source order; a loop that assigns it in its header
     counts as the assignment)"""
@@ -374,7 +384,8 @@ def unroll_constant_loops(modules, known, rep):
                     # for a, b in ((A1, B1), (A2, B2)): if <test>: ...; break      ==      if test[1]: ...  elif test[2]: ...
                     names_ = [e.id for e in st.target.elts if isinstance(e, ast.Name)]
                     rows = st.iter.elts
-                    okc = lambda e: isinstance(e, ast.Constant) or (isinstance(e, ast.Attribute) and isinstance(e.value, ast.Name) and e.value.id[:1].isupper())  # noqa: E731
+                    okc = lambda e: isinstance(e, ast.Constant) or (isinstance(e, ast.Attribute) and isinstance(e.value, ast.Name) and e.value.id[:1].isupper()) or \
+                        (isinstance(e, ast.Lambda) and not (e.args.args or e.args.vararg or e.args.kwarg or e.args.kwonlyargs) and isinstance(e.body, ast.Constant))  # noqa: E731
                     if len(names_) == len(st.target.elts) and 0 < len(rows) <= 16 and all(isinstance(r, ast.Tuple) and len(r.elts) == len(names_) and all(okc(e) for e in r.elts) for r in rows) \
                             and len(st.body) == 1 and isinstance(st.body[0], ast.If) and not st.body[0].orelse and st.body[0].body and isinstance(st.body[0].body[-1], ast.Break) \
                             and sum(1 for x_ in ast.walk(st) if isinstance(x_, (ast.Break, ast.Continue))) == 1 \
@@ -431,7 +442,7 @@ def unroll_constant_loops(modules, known, rep):
                                         return ast.copy_location(copy.deepcopy(mp[nd.id]), nd)
                                     return nd
                             for b in st.body:
-                                c = S3().visit(copy.deepcopy(b))
+                                c = _beta().visit(S3().visit(copy.deepcopy(b)))
                                 ast.fix_missing_locations(c)
                                 new_.append(c)
                         stmts[i - 1:i] = new_
@@ -1058,16 +1069,26 @@ def propagate_block_constants(modules, known, rep):
             continue
         known_locals = set(kl[key])
         params = set(_params(fn))
-        if any(isinstance(x, FUNC + (ast.Lambda,)) and x is not fn for x in ast.walk(fn)):
+        if any(isinstance(x, FUNC) and x is not fn for x in ast.walk(fn)):
             continue
+        in_lambda = {n.id for lam in ast.walk(fn) if isinstance(lam, ast.Lambda) for n in ast.walk(lam) if isinstance(n, ast.Name)}
         cands = {}
         for n in ast.walk(fn):
             if isinstance(n, ast.Name) and isinstance(n.ctx, (ast.Store, ast.Del)) and n.id not in known_locals and n.id not in params:
                 cands.setdefault(n.id, 0)
                 cands[n.id] += 1
         for t in sorted(cands):
+            if t in in_lambda:
+                continue
             defs = [a for a in ast.walk(fn) if isinstance(a, ast.Assign) and len(a.targets) == 1 and isinstance(a.targets[0], ast.Name) and a.targets[0].id == t]
-            if len(defs) != cands[t] or len(defs) < 2 or not all(isinstance(a.value, ast.Constant) and isinstance(a.value.value, (str, int, bytes)) for a in defs):
+            def _immutable_literal(v):
+                from .normalize import _literal_like
+                if isinstance(v, ast.Constant):
+                    return isinstance(v.value, (str, int, bytes))
+                if isinstance(v, ast.Tuple):
+                    return all(_immutable_literal(e) or (_literal_like(e) and isinstance(e, (ast.Name, ast.Lambda, ast.Attribute))) for e in v.elts)
+                return False
+            if len(defs) != cands[t] or len(defs) < 2 or not all(_immutable_literal(a.value) for a in defs):
                 continue
             loads = [n for n in ast.walk(fn) if isinstance(n, ast.Name) and n.id == t and isinstance(n.ctx, ast.Load)]
             covered = {}
@@ -1094,7 +1115,7 @@ def propagate_block_constants(modules, known, rep):
             class S(ast.NodeTransformer):
                 def visit_Name(self, node):
                     if id(node) in covered:
-                        return ast.copy_location(ast.Constant(covered[id(node)].value.value), node)
+                        return ast.copy_location(copy.deepcopy(covered[id(node)].value), node)
                     return node
             fn.body = [S().visit(st) for st in fn.body]
             for owner, fld, stmts in list(_blocks(fn)):
